@@ -156,6 +156,7 @@ class ExprMixin(object):
             if op == "%": return a % b
             if op == "**":
                 return a ** b if b >= 0 else self.arith("/", 1, a ** (-b), spec)
+            if op == "^": return a ^ b
             if op == ">>": return a >> b
             if op == "<<": return a << b
         if is_boollike(a) and is_z3(a):
@@ -176,6 +177,8 @@ class ExprMixin(object):
                 # z3 div rounds so that remainder is non-negative; for B<0: A = B*q' + r, 0<=r<|B|; floor = q' if r==0 else q'-1
                 q = z3.If(B > 0, A / B, z3.If(A % B == 0, A / B, A / B - 1))
                 return q if op == "//" else A - B * q
+            if op == "^" and isinstance(b, int) and b == 1:
+                return z3.If(A % 2 == 0, A + 1, A - 1)      # flip the lowest bit (non-negative operand)
             if op == ">>":
                 if isinstance(b, int):
                     return A / z3.IntVal(2 ** b)
@@ -444,6 +447,8 @@ class ExprMixin(object):
                     return self.ctx.draws[k][1]
                 # no such draw on this path: an unconstrained value (clauses guard it with the path's condition)
                 return self.ctx.fresh("nodraw", self.ctx.num.sort)
+        if name == "__name__":
+            return fr.module.name
         g = self.lookup_global(fr.module, name)
         if g is not NotImplemented:
             return g
@@ -615,7 +620,7 @@ class ExprMixin(object):
     def ev_BinOp(self, node, spec):
         a, b = self.ev(node.left, spec), self.ev(node.right, spec)
         op = {ast.Add: "+", ast.Sub: "-", ast.Mult: "*", ast.Div: "/", ast.FloorDiv: "//", ast.Mod: "%",
-              ast.Pow: "**", ast.RShift: ">>", ast.LShift: "<<"}.get(type(node.op))
+              ast.Pow: "**", ast.RShift: ">>", ast.LShift: "<<", ast.BitXor: "^"}.get(type(node.op))
         if op is None:
             raise VerifError("binary operator %s" % type(node.op).__name__)
         if op == "+" and isinstance(a, tuple) and isinstance(b, tuple):
